@@ -288,7 +288,13 @@ func (g *Gen) methodValueTemplate(depth int) []*S {
 	f := ms[g.r.Intn(len(ms))]
 	rt := PtrTo(f.recvTy)
 	var recv *E
-	if vs := g.varsOf(rt, false); len(vs) > 0 {
+	var vs []gvar
+	for _, x := range g.varsOf(rt, false) {
+		if !x.maybeNil {
+			vs = append(vs, x)
+		}
+	}
+	if len(vs) > 0 {
 		recv = v(vs[g.r.Intn(len(vs))].name, rt)
 	} else {
 		o := g.fresh("o")
